@@ -39,6 +39,17 @@ Theorem C09_strict_in_domain :
 Proof. exact strict_in_domain. Qed.
 Print Assumptions C09_strict_in_domain.
 
+(* the decidable leaf test of the strict domain is automatically true for every integer kind and every in-range plain
+   integer lexeme below 2^63 in magnitude (so it hides no arithmetic hypothesis there; floats: equality of the two
+   roundings, checked per case) *)
+Theorem C09_int_leaf_agrees :
+  forall k lex z,
+  is_int_kind k = true -> lex_is_plain_int lex = true -> parse_int lex = Some z ->
+  scalar_okb k z = true -> in_sb 64 z = true ->
+  leaf_agrees true k (EvNum lex) (LScalar z) = true.
+Proof. exact int_leaf_agrees. Qed.
+Print Assumptions C09_int_leaf_agrees.
+
 (* "accepted by the reference and decodes to exactly that message", on the model: the specified output decodes,
    with the decoder proved in ProtoMsgProofs, to the denoted message *)
 Theorem C09_j2p_output_decodes :
